@@ -32,6 +32,12 @@ def try_to_merge_ops(ops1, ops2):
         if len(ops2_common_columns_used.intersection(ops2_columns_produced)) > 0:
             return None
         new_ops = {k: ops1[k] for k in ops1.keys() if k not in common_produced}
+        # the surviving first-step expressions and all second-step expressions must also be independent
+        if len(ops2_columns_used.intersection(ops1_columns_produced)) > 0:
+            return None
+        ops1_kept_columns_used = set(data_algebra.expr_rep.get_columns_used(new_ops))
+        if len(ops1_kept_columns_used.intersection(ops2_columns_produced)) > 0:
+            return None
         new_ops.update(ops2)
         return new_ops
     # check required disjointness conditions
